@@ -41,14 +41,23 @@ the two deferred lists:
 *Every state, one handler* (as before): `no_service`, `owner_reply_forwarded`, `unknown_reply_ignored`,
 `foreign_reply_ignored`, `abort_answers_once`, `reply_after_abort_is_dropped`, `abort_twice_silent`.
 
-Partial: that a pending call *is* answered when its service or object is destroyed or its owner disconnects
-(the callee's side of the invariant: `Service::function_calls` against `function_calls`) and the absence of panics
-other than the three `remove_call` assertions (C11) are not theorems; they are tied by the correspondence runs (all
-interleavings the harness generates, with serial reuse, also right after an abort).
+*Every reachable state, the callee's side* (`Lemmas/Broker/{XCallee,CalView,CalFrame,Callee}.lean`: the invariant `Cal`
+between `function_calls` and `Service::function_calls`, together with the registry invariant of C03):
+* `pending_call_has_live_callee`: every call in the broker's table is held by the service entry it is for; that
+  service is registered, its object exists and lists it, and the owner of the object is connected;
+* `pending_entry_has_live_callee`: hence a call that is still pending at its caller has a live callee. Read the other
+  way round: once the service has been destroyed, or its object, or the owner has disconnected (in any of the four
+  ways), the call is no longer pending at the caller — and by `well_behaved_caller_exactly_once` (replies + pending =
+  calls) exactly one reply has then been delivered for it (`ended_callee_means_answered` spells out the arithmetic);
+* `service_holds_only_live_calls`: what a service entry holds is a call in the table for that very service, once.
+
+Partial: that the synthesized reply says `InvalidService` (rather than being the owner's or `Aborted`) is tied by the
+correspondence runs (all interleavings the harness generates, with serial reuse, also right after an abort).
 -/
 import Aldrin.Lemmas.Broker.Events
 import Aldrin.Lemmas.Broker.Xref2
 import Aldrin.Lemmas.Broker.RepExt
+import Aldrin.Lemmas.Broker.Callee
 
 set_option linter.unusedSimpArgs false
 set_option linter.unusedVariables false
@@ -459,5 +468,78 @@ theorem abort_is_answered {b b' : Broker} {w w' : Work} (hre : Reachable b w) {c
       refine ⟨by simpa using hext, ?_⟩
       rw [pendingCall_of_ck ht3]; omega
 
+
+/-! ### every reachable state: the callee's side -/
+
+/-- **Every call in the table has a live callee.** The service entry it is for holds it, that service is registered
+under its cookie, the object exists and lists the service, and the owner of the object is connected. -/
+theorem pending_call_has_live_callee {b : Broker} {w : Work} (h : Reachable b w) {bs : Nat} {call : Call}
+    (hg : b.calls.get? bs = some call) :
+    ∃ sv info o owner, AL.find? (call.calleeObj, call.calleeSvc) b.svcs = some sv ∧ bs ∈ sv.calls ∧
+      AL.find? sv.cookie b.svcUuids = some (⟨call.calleeObj, sv.objCookie⟩, call.calleeSvc, info) ∧
+      AL.find? call.calleeObj b.objs = some o ∧ sv.cookie ∈ o.svcs ∧ AL.find? o.conn b.conns = some owner :=
+  callee_of_call (s := ⟨b, w, []⟩) h.cal h.reg.2 hg
+
+/-- **A call that is still pending at its caller has a live callee**: if connection `c` has the entry `n ↦ bs`, the
+call `bs` is in the table, and its service, the service's object and the object's owner are all still there. So when
+the service or its object has been destroyed, or the owner has disconnected, the entry is gone. -/
+theorem pending_entry_has_live_callee {b : Broker} {w : Work} (h : Reachable b w) {c : ConnId} {conn : Conn} {n bs : Nat} {callee : ConnId}
+    (hc : AL.find? c b.conns = some conn) (he : AL.find? n conn.calls = some (bs, callee)) :
+    ∃ call sv o owner, b.calls.get? bs = some call ∧ call.callerSerial = n ∧ call.callerConn = c ∧ call.aborted = false ∧
+      AL.find? (call.calleeObj, call.calleeSvc) b.svcs = some sv ∧ bs ∈ sv.calls ∧
+      AL.find? call.calleeObj b.objs = some o ∧ AL.find? o.conn b.conns = some owner := by
+  obtain ⟨call, hg, h1, h2, h3⟩ := pending_entry_is_live_call h hc he
+  obtain ⟨sv, info, o, owner, q1, q2, _, q4, _, q6⟩ := pending_call_has_live_callee h hg
+  exact ⟨call, sv, o, owner, hg, h1, h2, h3, q1, q2, q4, q6⟩
+
+/-- what a service entry holds is a call in the table, for that service, and it holds it once -/
+theorem service_holds_only_live_calls {b : Broker} {w : Work} (h : Reachable b w) {k : Uuid × Uuid} {sv : Svc}
+    (hs : AL.find? k b.svcs = some sv) :
+    sv.calls.Nodup ∧ ∀ bs, bs ∈ sv.calls → ∃ call, b.calls.get? bs = some call ∧ (call.calleeObj, call.calleeSvc) = k := by
+  have hc := h.cal
+  have hv : scv ⟨b, w, []⟩ k = some sv.calls := scv_find hs
+  refine ⟨hc.j4 k _ hv, fun bs hm => ?_⟩
+  have := hc.j2 k _ bs hv hm
+  simp only [gk] at this
+  split at this
+  · rename_i call hcall; simp at this; exact ⟨call, hcall, by simp [this]⟩
+  · simp at this
+
+/-- **When the callee has ended, the call has been answered exactly once.** A history from any state that ends in a
+reachable one; `c` is there at the end with its task running, did not arrive anew and kept to the protocol for serial
+`n`. If whatever is registered at the end no longer contains a service with a connected owner for the call pending
+under `(c, n)` — stated as: no entry `n` is left whose call has a live callee — then nothing is pending, and the
+replies delivered with serial `n` are exactly the calls sent with it (plus the one pending at the start). -/
+theorem ended_callee_means_answered (es : List Event) (b : Broker) (w : Work) (b' : Broker) (w' : Work)
+    (outs : List (List Out)) (hr : run b w es = .ok (b', w', outs)) (hre : Reachable b' w') (c n : Nat)
+    (hn : ∀ v, Event.newConn c v ∉ es) (hl : Live b' c) (hwb : wellBehaved c n b w es = true)
+    (hgone : ∀ bs call, b'.calls.get? bs = some call → call.callerConn = c → call.callerSerial = n →
+      AL.find? (call.calleeObj, call.calleeSvc) b'.svcs = none) :
+    pendingCall b' c n = 0 ∧ callReplies c n outs = pendingCall b c n + callReqs c n es := by
+  have hp : pendingCall b' c n = 0 := by
+    unfold pendingCall
+    split
+    · rename_i conn hc
+      split
+      · rename_i hsome
+        exfalso
+        cases he : AL.find? n conn.calls with
+        | none => simp [he] at hsome
+        | some v =>
+          obtain ⟨bs, callee⟩ := v
+          obtain ⟨call, sv, o, owner, hg, h1, h2, _, q1, _⟩ := pending_entry_has_live_callee hre hc he
+          rw [hgone bs call hg h2 h1] at q1; simp at q1
+      · rfl
+    · rfl
+  have := well_behaved_caller_exactly_once es b w b' w' outs hr c n hn hl hwb
+  exact ⟨hp, by omega⟩
+
+/-! non-vacuity: a call is pending, the owner disconnects, the caller is answered `InvalidService` in that turn and
+nothing is left pending -/
+example : (match run {} {} [.newConn 0 20, .newConn 1 20, .msg 0 (.createObject 1 5), .msg 0 (.createService 2 0 6 3),
+      .msg 1 (.callFunction 9 1 0 [3, 7]), .connShutdown 0] with
+    | .ok (b, _, outs) => (b.calls.elems.length, b.svcs.length, (b.conns.map (fun p => (p.1, p.2.calls.length))), outs.drop 5)
+    | .error _ => (9, 9, [], [])) =
+    (0, 0, [(1, 0)], [[⟨1, .callFunctionReply 9 .invalidService, none⟩]]) := by decide
 
 end Aldrin.Broker
